@@ -161,6 +161,75 @@ Definition parse (s : str) : res msg :=
   end.
 End Parse.
 
+(* ---- the tail of IrcMsg.__init__, outside the try: nick, user, host of the prefix ---- *)
+Definition BANG : N := 33.
+Definition ws (c : N) : bool := mem c gen.T05.WHITESPACE.            (* re \s on str *)
+
+(* ircutils.isUserHostmask: userHostmaskRe.match(s), ^\S+!\S+@\S+$ ('$' also matches before a final LF) *)
+Fixpoint index_of (c : N) (s : str) : option nat :=
+  match s with
+  | [] => None
+  | x :: s' => if N.eqb x c then Some O else option_map S (index_of c s')
+  end.
+Definition strip_final_lf (s0 : str) : str :=
+  match rev s0 with c :: r => if N.eqb c LF then rev r else s0 | [] => s0 end.
+Definition is_user_hostmask (s0 : str) : bool :=
+  let s := strip_final_lf s0 in
+  forallb (fun c => negb (ws c)) s &&
+  match s with
+  | [] => false
+  | _ :: t =>                                   (* \S+ : at least one character before the '!' *)
+      match index_of BANG t with
+      | None => false
+      | Some k =>
+          match skipn (S k) t with
+          | [] => false
+          | _ :: r' => mem AT (removelast r')    (* \S+ '@' \S+ *)
+          end
+      end
+  end.
+
+(* s.rsplit(c, 1) / s.split(c, 1) unpacked into two names: None = ValueError (one piece only) *)
+Definition rsplit1c (c : N) (s : str) : option (str * str) :=
+  match split1 [c] (rev s) with
+  | Some (b, a) => Some (rev a, rev b)
+  | None => None
+  end.
+Definition split_once (r : bool) (c : N) (s : str) : option (str * str) :=
+  if r then rsplit1c c s else split1 [c] s.
+
+(* ircutils.splitHostmask as the regenerated table describes it: the first (r)split cuts the hostmask in
+   two, the second cuts the left or the right piece; the three pieces, left to right, are nick, user, host *)
+Definition split_with (t1 : bool * N) (t2 : bool * N * bool) (s : str) : res (str * str * str) :=
+  if negb (is_user_hostmask s) then Raise AssertionError else
+  let '(r1, c1) := t1 in let '(r2, c2, onright) := t2 in
+  match split_once r1 c1 s with
+  | None => Raise ValueError
+  | Some (a, b) =>
+      if onright then match split_once r2 c2 b with
+                    | None => Raise ValueError
+                    | Some (u, h) => Ok (a, u, h)
+                    end
+      else match split_once r2 c2 a with
+           | None => Raise ValueError
+           | Some (n, u) => Ok (n, u, b)
+           end
+  end.
+Definition split_hostmask := split_with gen.T05.SPLIT1 gen.T05.SPLIT2.
+(* the order the pinned tree used: nick, rest = rsplit('!'); user, host = rest.rsplit('@') *)
+Definition split_hostmask_old := split_with (true, BANG) (true, AT, true).
+
+Record fmsg := FMsg { f_msg : msg; f_nick : str; f_user : str; f_host : str }.
+Definition finish (m : msg) : res fmsg :=
+  let p := m_prefix m in
+  if is_user_hostmask p then
+    do nuh <- split_hostmask p;
+    let '(n, u, h) := nuh in Ok (FMsg m n u h)
+  else Ok (FMsg m p p p).
+(* IrcMsg(s) as a whole *)
+Definition parse_full (valid_time : str -> bool) (s : str) : res fmsg :=
+  do m <- parse valid_time s; finish m.
+
 (* ---- __str__ of a message whose _str cache is empty ---- *)
 Definition serialize_body (m : msg) : str :=
   let p := m_prefix m in let c := m_command m in
@@ -188,6 +257,10 @@ Definition vTags (t : tags) : value :=
   L (map (fun kv => L [vS (fst kv); vO vS (snd kv)]) t).
 Definition vMsg (m : msg) : value :=
   L [vTags (m_tags m); vS (m_prefix m); vS (m_command m); vLS (m_args m)].
+Definition vFMsg (f : fmsg) : value :=
+  let m := f_msg f in
+  L [vTags (m_tags m); vS (m_prefix m); vS (m_command m); vLS (m_args m); vS (f_nick f); vS (f_user f); vS (f_host f)].
+Definition vTriple (t : str * str * str) : value := let '(n, u, h) := t in L [vS n; vS u; vS h].
 Definition gTags (v : value) : tags :=
   map (fun kv => (gS (nth_v 0 kv), gO gS (nth_v 1 kv))) (gL v).
 Definition gMsg (v : value) : msg :=
@@ -206,13 +279,14 @@ Definition str_cached (m : msg) (cache : option str) : str * option str :=
 (* run: (op, payload).
    op 0: parse line -> (time tag lookup, result if time valid, result if not)
    op 1: serialize msg -> str
-   op 2: escape str ; op 3: unescape str *)
+   op 2: escape str ; op 3: unescape str
+   op 5: ircutils.isUserHostmask(s), ircutils.splitHostmask(s) *)
 Definition run (v : value) : value :=
   let payload := nth_v 1 v in
   match gN (nth_v 0 v) with
   | 0 =>
       let s := gS payload in
-      L [vR vMsg (parse (fun _ => true) s); vR vMsg (parse (fun _ => false) s)]
+      L [vR vFMsg (parse_full (fun _ => true) s); vR vFMsg (parse_full (fun _ => false) s)]
   | 1 => vS (serialize (gMsg payload))
   | 2 => vS (escape (gS payload))
   | 3 => vS (unescape (gS payload))
@@ -220,6 +294,7 @@ Definition run (v : value) : value :=
          let r1 := str_cached m None in
          let r2 := str_cached m (snd r1) in
          L [vS (fst r1); vS (fst r2)]
+  | 5 => let s := gS payload in L [vB (is_user_hostmask s); vR vTriple (split_hostmask s)]
   | _ => L []
   end.
 
